@@ -326,10 +326,15 @@ package core
 //@   nopanic
 //@   ensures h != nil
 
+// contexts handed to the service by the transports carry a ServiceContext (assumed)
+//@ func GetServiceContext
+//@   nopanic
+
 //@ func (*Service).Process
 //@   prop C11 C08
 //@   nopanic
 //@   havoc
+//@   flag typeassert=panic
 //@   modifies ghost.decoded, ghost.encoded, ghost.encoded_is_error, @NEXT_INVOKE
 //@   requires s != nil
 //@   ensures [decodes_once] ghost.decoded == old(ghost.decoded) + 1
